@@ -289,18 +289,22 @@ def desired_uv(sc, f: int) -> tuple[np.ndarray, np.ndarray]:
     return lv[:, None, None] * bu[None], lv[:, None, None] * bv[None]
 
 
-def pack_scale(sc) -> float:
-    return float(sc["frames"].get("scale", 1.0e-4))
+def pack_scale(sc, comp: str = "u") -> float:
+    """scale_factor of a packed velocity component; 'scale' is one number or [scale_u, scale_v]"""
+    sc_ = sc["frames"].get("scale", 1.0e-4)
+    if isinstance(sc_, (list, tuple)):
+        return float(sc_[0 if comp == "u" else 1])
+    return float(sc_)
 
 
 def stored_uv(sc, f: int):
     """what goes into the file: (array to write, its netCDF dtype, scale or None)"""
     du, dv = desired_uv(sc, f)
     if sc["frames"].get("storage", "f4") == "i2":
-        s = pack_scale(sc)
-        qu = np.clip(np.rint(du / s), -32000, 32000).astype(np.int16)
-        qv = np.clip(np.rint(dv / s), -32000, 32000).astype(np.int16)
-        return qu, qv, s
+        su, sv = pack_scale(sc, "u"), pack_scale(sc, "v")
+        qu = np.clip(np.rint(du / su), -32000, 32000).astype(np.int16)
+        qv = np.clip(np.rint(dv / sv), -32000, 32000).astype(np.int16)
+        return qu, qv, (su, sv)
     return du.astype(np.float32), dv.astype(np.float32), None
 
 
@@ -309,9 +313,9 @@ def truth_uv(sc, f: int) -> tuple[np.ndarray, np.ndarray]:
     a, b, s = stored_uv(sc, f)
     if s is None:
         return a.astype(np.float64), b.astype(np.float64)
-    s32 = np.float32(s)
-    return (s32 * a.astype(np.float32)).astype(np.float64), (
-        s32 * b.astype(np.float32)
+    su, sv = np.float32(s[0]), np.float32(s[1])
+    return (su * a.astype(np.float32)).astype(np.float64), (
+        sv * b.astype(np.float32)
     ).astype(np.float64)
 
 
